@@ -68,7 +68,7 @@ var c13fmf = value.NewFuncMapFactory[value.Int](func(v value.Int, key string) (v
 		return value.Int(7), true
 	}
 	return nil, false
-}, "a", "b", "c", "k1")
+}, "a", "k1", "c", "b") // keys that are present follow keys that are absent
 
 func (h *hist) hostMaps() {
 	s := c13struct{A: int(h.r.IntN(5)), B: "x", C: 1.5, D: true}
@@ -79,7 +79,7 @@ func (h *hist) hostMaps() {
 	k := int64(h.r.IntN(5))
 	fm := ref.MapOf("a", k, "b", 2*k)
 	if k%2 == 1 {
-		fm = ref.MapOf("a", k, "b", 2*k, "c", k+100)
+		fm = ref.MapOf("a", k, "c", k+100, "b", 2*k)
 	}
 	h.hs = append(h.hs, &handle{ref: fm, real: c13fmf.Create(value.Int(k)), how: "NewFuncMapFactory"})
 	h.log = append(h.log, "h0..h2 := host-built maps (NewToMap, NewToMapReflection, NewFuncMapFactory)")
@@ -208,6 +208,19 @@ func (h *hist) observeMap(i int) bool {
 			!h.observe(i, "isAvail", ref.Method(h0, "isAvail", ref.Str(k))) || !h.observe(i, "~", ref.Bin("~", ref.Str(k), h0)) {
 			return false
 		}
+	}
+	// isAvail with several keys: all of them must be present
+	for n := 0; n < 4; n++ {
+		k1, k2, k3 := h.key(), h.key(), h.key()
+		if len(m.Keys) > 0 && n%2 == 0 {
+			k2 = m.Keys[h.r.IntN(len(m.Keys))]
+		}
+		if !h.observe(i, "isAvail-2", ref.Method(h0, "isAvail", ref.Str(k1), ref.Str(k2))) || !h.observe(i, "isAvail-3", ref.Method(h0, "isAvail", ref.Str(k2), ref.Str(k1), ref.Str(k3))) {
+			return false
+		}
+	}
+	if !h.observe(i, "isAvail-0", ref.Method(h0, "isAvail")) {
+		return false
 	}
 	if !h.observe(i, "size", ref.Method(h0, "size")) || !h.observe(i, "list", ref.Method(h0, "list")) || !h.observe(i, "string", ref.Method(h0, "string")) ||
 		!h.observe(i, "map-iteration", ref.Method(ref.Method(h0, "map", ref.Clo([]string{"k", "v"}, ref.Id("k"))), "list")) ||
